@@ -18,21 +18,24 @@ import (
 )
 
 // Envelope constants.  Calibrated on the unchanged tree (see the evidence
-// field "calibration": worst observed ratios): every constant is at least
-// twenty times the worst observation of the thorough tier, with an absolute
-// floor that a loaded machine does not reach.
+// fields "calibration", "top_cpu", "top_alloc"): at least twenty times the
+// worst observation of the thorough tier - except for the one outlier named
+// below, which the CPU floor exceeds 4.5 times - with absolute floors that a
+// heavily loaded machine does not reach (CPU time, not wall time, is judged;
+// the wall clock only drives the watchdog).
 //
-//	worst observations (quick and thorough, seeds 1..5, loaded machine)
-//	  CPU    2.0 s for one call: DecodeStream of a 1 kB JBIG2 text region from the
-//	         repository's fuzz corpus (work bounded by the 8 MiB stream budget);
-//	         everything else stays below 0.15 s; 0.45 ms per KiB for inputs > 8 KiB
-//	  heap   7.7 MiB for one call (the same stream: limits.StreamBudgetBase);
-//	         95 KiB per KiB for inputs > 8 KiB
+//	worst observations (quick and thorough tiers, seeds 1..5, load average > 100)
+//	  CPU    3.3 s for one call: DecodeStream of a 1 kB JBIG2 text region from the
+//	         repository's fuzz corpus and its mutants (2.0 s on a quieter machine;
+//	         the work is bounded by the 8 MiB stream budget, not by the input);
+//	         everything else stays below 0.5 s; 5 ms per KiB for inputs > 8 KiB
+//	  heap   70 MiB for one call (SequentialScan of a 4 MB file with 20000
+//	         objects: 17 KiB per KiB), 7.7 MiB for inputs of a few kB
 const (
-	cpuFloorUs    = 10_000_000 // 10 s of CPU for any call (5 x the JBIG2 outlier, > 60 x the rest; below the watchdog)
-	cpuPerKiBUs   = 40_000     // + 40 ms per KiB of input (90 x)
-	allocFloorKiB = 160 << 10  // 160 MiB for any call (20 x limits.StreamBudgetBase)
-	allocPerKiB   = 4096       // + 4 MiB per KiB of input (4 x limits.StreamBudgetMultiplier, 40 x the worst observation)
+	cpuFloorUs    = 15_000_000 // 15 s of CPU for any call (4.5 x the JBIG2 outlier, 30 x the rest; below the watchdog)
+	cpuPerKiBUs   = 100_000    // + 100 ms per KiB of input (20 x)
+	allocFloorKiB = 160 << 10  // 160 MiB for any call (20 x limits.StreamBudgetBase, 20 x the worst small input)
+	allocPerKiB   = 4096       // + 4 MiB per KiB of input (4 x limits.StreamBudgetMultiplier; 240 x the worst large input)
 	maxLenKiB     = 65536
 )
 
